@@ -500,7 +500,7 @@ class Sim:
             i, k = int(t[2]), int(t[3])
             loc = self.resolve_mut(p, guard)
             v = self.read(loc)
-            if isinstance(v, Arr) and k > 0 and i < len(v.items) and i + k <= len(v.items):
+            if isinstance(v, Arr) and i >= 0 and k > 0 and i < len(v.items) and i + k <= len(v.items):
                 del v.items[i:i + k]
             return "ok"
         if op == "rem":
@@ -848,7 +848,7 @@ class Gen:
         elif r < 0.75:
             root, steps, v = self.rand_path()
             L = len(v.items) if isinstance(v, Arr) else 0
-            line = "remat %s %d %d" % (path_str(root, steps), rng.randrange(0, L + 1), rng.choice([1, 1, 1, 2, 3, 0, L]))
+            line = "remat %s %d %d" % (path_str(root, steps), rng.choice([-1, L]) if rng.random() < 0.05 else rng.randrange(0, L + 1), rng.choice([1, 1, 1, 2, 3, 0, L, -1, L + 1]))
         elif r < 0.79:
             root, steps, v = self.rand_path()
             ks = sorted(v.items) if isinstance(v, Obj) else []
